@@ -16,7 +16,7 @@
    would otherwise lex as one operator) and fixes/C15-2.patch (sizeof(x) no longer prints as sizeof((x))). *)
 From Coq Require Import List ZArith Bool.
 From OV.C12 Require Import OpDefs Model.
-From OV.gen Require Import C12_OpTable.
+From OV.gen Require Import C12_OpTable C15_Flags.
 Import ListNotations.
 Local Open Scope Z_scope.
 
@@ -141,7 +141,9 @@ Definition applyOperator (prevIsStart : bool) (o : oper) (out : list expr) : opt
     end
   else Some out.
 
-(* operatorIsLeftUnary (485-561); None = hasError ("Ambiguous operator") *)
+(* operatorIsLeftUnary (485-561); None = hasError ("Ambiguous operator").
+   `ambfix` (coq/gen/C15_Flags.v, written by tools/C15_flags.py from the source) tells whether the source
+   has the branch that makes + - * & binary after an operand whatever follows. *)
 Definition operatorIsLeftUnary (prev next : option ptok) (o : oper) : option bool :=
   let opType := op_type o in
   let chainable := ot_or (ot_or ot_increment ot_decrement) ot_parentheses in
@@ -159,6 +161,7 @@ Definition operatorIsLeftUnary (prev next : option ptok) (o : oper) : option boo
           if is prevOpType ot_leftUnary || (is prevOpType ot_binary && negb (is prevOpType ot_unary))
           then Some true
           else if negb onlyUnary then Some false else None
+        else if ambfix && negb onlyUnary then Some false      (* fixes/C14-7.patch, when present in the source *)
         else None in
       match early with
       | Some b => Some b
